@@ -84,12 +84,13 @@ P("C26", [("K4", None), ("V0", None)],
   "Assumed: every TyData comes from intern_ty; rigid AssociatedType/OpaqueType count as applications; STILL_FURTHER_SPECIALIZABLE masked out.",
   "contract-based verification: Kani harness contracts per enum variant (symbolic child flags) + Verus induction lemma")
 
-P("C16", [("K8", None), ("K10", None), ("K1", r"^k1_(c_bv_shifted_in_from|c_db_shifted_in_from|l_universe)")],
+P("C16", [("K8", None), ("K1", r"^k1_(c_bv_shifted_in_from|c_db_shifted_in_from|l_universe)")],
   "model_checking",
-  "Partial: Kani on the real code proves that unknowns are numbered by first occurrence with repeated / unified unknowns sharing an index and max_universe tracking them "
-  "(Canonicalizer::add + the unbound leaf of fold_inference_ty over the real ena table), and that universe compression is order preserving, injective, invertible below the "
-  "number of universes and maps out-of-range universes strictly above (UniverseMap, universe values fully symbolic). BOUNDED in the number of variables/universes.",
-  "Not reached: the 'exactly when' over whole values and the instantiate/canonicalize round trip (generic folder); inversion. Assumed: ena, binary_search, Vec::insert as compiled by Kani.",
+  "Partial (second sentence of C16 only): Kani on the real UniverseMap code proves, invariant-style, that `new` establishes and `add` preserves a strictly increasing, rooted universe "
+  "vector, and that for EVERY such vector universe compression is order preserving, injective, invertible below the number of universes and maps out-of-range canonical universes "
+  "strictly above every universe of the query (universe values fully symbolic); plus the index shift applied to the fresh bound variable (K1). BOUNDED in the vector length (<= 3).",
+  "Not reached: first-occurrence numbering (Canonicalizer::add: iterator+closure code outside Verus; in Kani the Clone glue of GenericArg reached through ena makes CBMC time out), "
+  "the 'exactly when' over whole values, the instantiate/canonicalize round trip, inversion. Assumed: binary_search, Vec::insert as compiled by Kani.",
   "contract-based verification with Kani harness contracts compiled inside chalk-solve (tracing replaced by a no-op stand-in), bounded")
 
 P("C09", [("K11", None), ("V3", None)],
@@ -100,14 +101,6 @@ P("C09", [("K11", None), ("V3", None)],
   "Not reached: termination of the SLG engine (subgoal abstraction, truncation), of Fulfill::fulfill and of the fixed-point loop itself; 'without panicking' is not claimed (the overflow push panics by design).",
   "contract-based verification with Kani harness contracts (bounded) + Verus on extracted text")
 
-P("C18", [("K6", None)],
-  "model_checking",
-  "Kani runs the real could_match (MatchZipper over the real Zip machinery) on every pair of head constructors with leaf children and checks it against an oracle written from the "
-  "definition of first-order unifiability: whenever the filter answers false the two types have no common instance; the filter is also symmetric. BOUNDED in term shape "
-  "(depth 2, <= 2 children); the lifting to all types (child-wise conservative => conservative) is an argument, not a machine-checked proof.",
-  "Assumed: callers (impls_for_trait, build_table, solve_from_clauses) only use could_match to retain clauses. DomainGoal-level zipping (Zip derive) is exercised only through types.",
-  "contract-based verification with Kani: harness contract against an independent unifiability oracle, bounded shapes")
-
 P("C08", [("V11", None)],
   "proof",
   "Partial: Verus proves on the verbatim text of add_sized_program_clauses and add_copy_program_clauses, for EVERY TyKind variant and variable kind, that exactly the clause dictated by the "
@@ -116,12 +109,57 @@ P("C08", [("V11", None)],
   "Not reached: Clone/Tuple/FnPtr, the outer dispatcher (its match sits in a closure), the helpers' bodies (last_field_of_struct, needs_impl_for_tys), how explicit impls combine (solver).",
   "contract-based deductive verification: Verus on mechanically extracted function text with a ghost clause log")
 
+P("C29", [("V9", None), ("K1", r"^k3_"), ("K7", None)],
+  "model_checking",
+  "Partial: Verus proves on the verbatim text that the lifetime requirements recorded for a position are exactly those dictated by its variance (contravariant: a: b; covariant: b: a; "
+  "invariant: both), that an unknown lifetime is bound only for an invariant relation whose value its universe can name and otherwise yields exactly those requirements, and — as a lemma "
+  "over these contracts and the verified variance composition — that `&'a T <: &'b T` requires exactly `'a: 'b` (unbounded). Kani proves the variance algebra (full domain) and that "
+  "zip_substs relates argument i at ambient∘declared[i], in order, stopping at the first failure (BOUNDED: <= 3 arguments).",
+  "Not reached: relate_ty_ty's arms themselves (Ref/Raw/Adt/Tuple/FnDef/Function), relate_lifetime_lifetime (reference patterns), 'structures agree', the two-unknowns flounder rule.",
+  "contract-based deductive verification: Verus on extracted text + Kani function contracts / harness contracts")
+
+P("C14", [("K1", r"^k1_(c_ui|l_universe)"), ("V9", None)],
+  "proof",
+  "Partial (leaf decisions only): Kani (loop-free, full domain) and Verus both prove that can_see is the counter order (total preorder, `next` strictly above); Verus proves on the verbatim "
+  "text that an unknown lifetime is bound to a value only if the relation is invariant and the unknown's universe can see the value's universe, constraints being emitted otherwise. "
+  "Unbounded / complete for these functions.",
+  "Not reached: soundness and most-generality for whole terms (Zip / TypeFoldable induction, ena's union-find), the occurs check folder for types (reference patterns / generic folder), "
+  "generalize_ty, InferenceValue::unify_values (reference patterns in Verus; Clone glue blow-up in Kani).",
+  "contract-based deductive verification: Kani full-domain function contracts + Verus on extracted text")
+
+P("C11", [("K12", r"_q"), ("V5", None), ("V4", None)],
+  "model_checking",
+  "Partial (first sentence, function-level links): Kani runs the real make_solution on every answer stream up to the bound that contains an interruption and shows the result is "
+  "always Some(Ambig(_)) — never Unique, never 'no solution'; Verus proves the SLG stream reports QuantumExceeded only when the caller's callback returned false, and that an "
+  "interrupted iteration of the recursive solver returns Ambig(Unknown) without touching the solver state. BOUNDED (stream length <= 2/3) for make_solution; Verus parts unbounded.",
+  "Not reached: the second sentence (later solves equal a fresh solver) is a history property (see C10). Note: the recursive solver's interrupted Ambig(Unknown) is a value its caller may cache; "
+  "whether that is a defect is a history question this family cannot decide.",
+  "contract-based verification: Kani harness contract over enumerated streams + Verus on extracted text")
+
+P("C01", [("K12", None), ("V1", None), ("V3", None)],
+  "model_checking",
+  "Partial (aggregation contract only): Kani runs the real make_solution on every answer stream up to the bound: Unique iff exactly one unconditional answer, 'no solution' iff the "
+  "stream is empty, nothing definite after a flounder or an interruption, the Unique payload is the stream's answer unchanged; Verus proves combine never manufactures a Unique and "
+  "that the recursive fixed point starts from bottom/top as the semantics requires. BOUNDED (stream length <= 2/3); Verus parts unbounded.",
+  "Assumed: the answer stream itself is sound and complete, i.e. SLG resolution and the recursive search against the program's logical meaning — the bulk of C01 — are NOT verified "
+  "(no function of chalk has the logical meaning as an argument or view; logic.rs is out of reach of both tools).",
+  "contract-based verification: Kani harness contract over enumerated streams + Verus on extracted text")
+
+P("C28", [("V5", None), ("K12", r"_ans"), ("V1", None), ("K8", r"laws")],
+  "model_checking",
+  "Partial: Verus proves the SLG stream's CompleteAnswer copies binders, substitution and constraints of the table's answer unchanged; Kani shows make_solution's Unique payload is that "
+  "answer unchanged; Verus shows into_guidance / definite_subst / constrained_subst keep the binders with the substitution; Kani shows map_universe_from_canonical sends every canonical "
+  "universe of the query back to one of the query's own universes. BOUNDED where Kani is used.",
+  "Not reached: arity/kind agreement of the substitution with the query's binders (established inside resolution and canonicalisation), Fulfill::solve.",
+  "contract-based verification: Verus on extracted text + Kani harness contracts")
+
 # ---- not (yet) claimed
 NOT_APPLICABLE['C02'] = "completeness of proof search within size limits is a whole-search statement; the mechanisms named in the anchors (on_no_strands_left, clear_strands_after_cycle, solve_new_subgoal, Fulfill::fulfill) log, use FxHashMap tables and custom Index impls (DESIGN P5/P6/P10) and none has a per-function contract implying 'never Ambiguous'"
 NOT_APPLICABLE['C04'] = 'relational property between two whole solvers; no function has a contract that mentions both'
 NOT_APPLICABLE['C06'] = 'the closure is computed by program_clauses_for_env (hash sets, iterator adaptors, logging) and a TypeVisitor; no extractable function carries the property'
 NOT_APPLICABLE['C10'] = 'property over histories of solver calls; Forest.tables / SearchGraph / Cache are FxHashMap-backed and logged (P5/P6/P10)'
 NOT_APPLICABLE['C12'] = 'Kani has no unwinding (panic=abort) and Verus has no panics; the state at an arbitrary unwinding point of logic.rs needs state-machine invariants that are out of reach'
+NOT_APPLICABLE['C18'] = "could_match is one generic Zip-driven recursion (MatchZipper over the derive(Zip) machinery, with a closure inside the match): not extractable for Verus, and two Kani attempts (symbolic head kinds; concrete head pairs with symbolic leaf children) needed 5-9 GB and did not finish in 7 minutes per harness even for leaf-vs-leaf — recorded in DESIGN.md; no bounded stand-in small enough to be worth claiming"
 NOT_APPLICABLE['C20'] = 'the orphan rule is realised by clause generation (closures, iterators, logging) plus a solver run; no contract within reach expresses it'
 NOT_APPLICABLE['C21'] = 'solver-mediated; wf.rs builds goals with iterator chains and closures'
 NOT_APPLICABLE['C22'] = 'fmt::Write-based rendering and a generated LALRPOP parser; Verus has no string reasoning and CBMC does not get through core::fmt + parser tables'
